@@ -575,7 +575,14 @@ func runC10(c *Ctx) {
 						if pr[0] != f.X {
 							op = swapOp(op)
 						}
-						if phi, isPhi := stripConv(pr[0]).(*ssa.Phi); isPhi && phi.Block() == h && (op == token.LSS || op == token.NEQ) && isLoadOfField(stripConv(pr[1]), numF) {
+						cv := stripConv(pr[0])
+						if b, isAdd := cv.(*ssa.BinOp); isAdd && b.Op == token.ADD {
+							// (the test of a `for range n` loop is made on the counter + 1)
+							if _, isK := constInt64(b.Y); isK {
+								cv = stripConv(b.X)
+							}
+						}
+						if phi, isPhi := cv.(*ssa.Phi); isPhi && phi.Block() == h && (op == token.LSS || op == token.NEQ) && isLoadOfField(stripConv(pr[1]), numF) {
 							return true
 						}
 					}
@@ -596,22 +603,11 @@ func runC10(c *Ctx) {
 					continue
 				}
 				nld++
+				// (a read in a helper that is called from the loop body is in the loop)
 				inLoop := false
-				blk := ld.Block()
-				for depth := 0; depth < 4 && blk != nil; depth++ {
-					h, body := loopOf(blk)
-					if h == nil {
-						break
-					}
-					if boundedBy(h, body) {
+				for _, h := range ge.loopsAround(n) {
+					if _, body := loopOf(h); boundedBy(h, body) {
 						inLoop = true
-						break
-					}
-					blk = nil
-					for _, p := range h.Preds {
-						if !body[p] {
-							blk = p
-						}
 					}
 				}
 				if !inLoop {
